@@ -174,14 +174,26 @@ def preamble_csbk(rng, btf, source_address=1, target_address=None):
 
 
 def other_csbk(rng, source_address=1):
+    """a CSBK that is not a preamble: every implemented opcode that carries a source address (the burst id of the harness)"""
     from okdmr.dmrlib.etsi.layer2.elements.csbk_opcodes import CsbkOpcodes
     from okdmr.dmrlib.etsi.layer2.pdu.csbk import CSBK
-    k = rng.randrange(2)
+    from okdmr.dmrlib.etsi.layer3.elements.additional_information_field import AdditionalInformationField
+    from okdmr.dmrlib.etsi.layer3.elements.answer_response import AnswerResponse
+    from okdmr.dmrlib.etsi.layer3.elements.reason_code import ReasonCode
+    from okdmr.dmrlib.etsi.layer3.elements.source_type import SourceType
+    k = rng.randrange(4)
     if k == 0:
         return CSBK(csbko=CsbkOpcodes.BSOutboundActivation, bs_address=rng.randrange(1, 1 << 24),
                     source_address=source_address)
-    return CSBK(csbko=CsbkOpcodes.UnitToUnitVoiceServiceRequest, service_options=service_options(rng),
-                target_address=rng.randrange(1, 1 << 24), source_address=source_address)
+    if k == 1:
+        return CSBK(csbko=CsbkOpcodes.UnitToUnitVoiceServiceRequest, service_options=service_options(rng),
+                    target_address=rng.randrange(1, 1 << 24), source_address=source_address)
+    if k == 2:
+        return CSBK(csbko=CsbkOpcodes.UnitToUnitVoiceServiceAnswerResponse, service_options=service_options(rng),
+                    answer_response=rng.choice(list(AnswerResponse)), target_address=rng.randrange(1, 1 << 24), source_address=source_address)
+    return CSBK(csbko=CsbkOpcodes.NegativeAcknowledgementResponse, additional_information_field=rng.choice(list(AdditionalInformationField)),
+                source_type=rng.choice(list(SourceType)), service_type=rng.choice([CsbkOpcodes.UnitToUnitVoiceServiceRequest, CsbkOpcodes.BSOutboundActivation]),
+                reason_code=rng.choice(list(ReasonCode)), target_address=rng.randrange(1, 1 << 24), source_address=source_address)
 
 
 def marker(n):
